@@ -5,6 +5,7 @@ import (
 	"fmt"
 	"os"
 	"path/filepath"
+	"runtime"
 	"strings"
 	"time"
 
@@ -305,6 +306,30 @@ func classifyPanic(stack string) (site string, excluded bool) {
 	return panicSite(stack), false
 }
 
+// c08WatchedCall is the marker frame the watchdog looks for in the goroutine dump
+func c08WatchedCall(f func()) { f() }
+
+// c08WhereIsItStuck returns the innermost frames of the goroutine that is still inside c08WatchedCall
+func c08WhereIsItStuck() string {
+	buf := make([]byte, 1<<20)
+	buf = buf[:runtime.Stack(buf, true)]
+	for _, g := range strings.Split(string(buf), "\n\n") {
+		if strings.Contains(g, "c08WatchedCall") && !strings.Contains(g, "c08WhereIsItStuck") {
+			var frames []string
+			for _, l := range strings.Split(g, "\n")[1:] {
+				if !strings.HasPrefix(l, "\t") {
+					frames = append(frames, l)
+				}
+				if len(frames) >= 4 {
+					break
+				}
+			}
+			return strings.Join(frames, " <- ")
+		}
+	}
+	return "(goroutine not found in the dump)"
+}
+
 func c08ReaderCase(c *fw.Ctx) fw.Outcome {
 	r := c.R
 	format := corpusFormats[r.Intn(len(corpusFormats))]
@@ -356,10 +381,32 @@ func c08ReaderCase(c *fw.Ctx) fw.Outcome {
 		}
 		var err error
 		var p string
-		if ri == 5 && ttOpts != nil {
-			p = guard(func() { _, err = astisub.ReadFromTeletext(bytes.NewReader(doc), *ttOpts) })
+		cr := r
+		call := func() {
+			if ri == 5 && ttOpts != nil {
+				p = guard(func() { _, err = astisub.ReadFromTeletext(bytes.NewReader(doc), *ttOpts) })
+			} else {
+				p = guard(func() { err = rd.read(doc, cr) })
+			}
+		}
+		if ri == 5 {
+			// the teletext reader delegates to a third-party demultiplexer that may itself never return: the call
+			// runs under an in-process watchdog so that such a stream can be attributed and the worker goes on
+			cr = fw.NewRand(r.U64()) // an abandoned goroutine must not share the case's generator
+			done := make(chan struct{})
+			go func() { c08WatchedCall(call); close(done) }()
+			select {
+			case <-done:
+			case <-time.After(20 * time.Second):
+				where := c08WhereIsItStuck()
+				if strings.Contains(where, "go-astits") {
+					c.Count("hangs_inside_demultiplexer_excluded", 1)
+					continue
+				}
+				return fw.Bad(key, fmt.Sprintf("%x", doc), "%s did not return within 20 s on a %s document (%s, %d bytes); it is executing: %s", rd.name, format, origin, len(doc), where)
+			}
 		} else {
-			p = guard(func() { err = rd.read(doc, r) })
+			call()
 		}
 		c.Count("reader_calls", 1)
 		if err != nil {
